@@ -188,3 +188,51 @@ func H_C08_3_Prediction() {
 	verif.Assert("same-return-data", string(r1.Ret) == string(r2.Ret))
 	verif.Reach("predicted")
 }
+
+// H_C08_4_EstimateGas: the real Keeper.EstimateGas (binary search over the real state transition) against a contract
+// whose success depends on the gas supplied (it needs minGas head-room on entry, consumes gasUse <= minGas and earns a
+// refund): a returned estimate is a gas limit with which the same call, on the same state, does not fail; the
+// estimation leaves the persistent stores untouched.
+func H_C08_4_EstimateGas() { estimateGas(32, false) }
+
+// H_C08_4b_EstimateGasWide: the same over a window of 100 gas units and a symbolic call value (thorough tier).
+func H_C08_4b_EstimateGasWide() { estimateGas(100, true) }
+
+func estimateGas(span uint64, symValue bool) {
+	model.ResetScripts()
+	model.ResetTxs()
+	nonce := uint64(5)
+	w := NewWorld(nonce)
+	t := &Tx{To: ContractAddr, Nonce: nonce, GasPrice: big.NewInt(0)}
+	t.Value = big.NewInt(0)
+	if symValue {
+		t.Value = amount("tx.value", 128)
+	}
+	t.GasLimit = 21000 + span
+	sc := &model.Script{GasUse: verif.Uint64("script.gasUse"), MinGas: verif.Uint64("script.minGas"), Outcome: verif.Choice("script.outcome", model.NOutcomes)}
+	refund := verif.Uint64("script.refund")
+	verif.Assume(refund < 1<<62)
+	sc.Actions = []model.Action{{Kind: model.ActSStore, Amt: big.NewInt(0), Slot: common.BytesToHash([]byte{1}), Val: common.Hash{}, Refund: refund}}
+	verif.Assume(sc.MinGas <= 128 && sc.GasUse <= sc.MinGas)
+	model.Scripts[ContractAddr] = sc
+	e := w.E
+	before := e.MS.Snapshot()
+	var resp *evmtypes.EstimateGasResponse
+	var err error
+	panicked := verif.Try(func() { resp, err = e.EK.EstimateGas(e.Ctx, ethCallRequest(t, 25_000_000)) })
+	verif.Assert("estimate-does-not-panic", !panicked)
+	verif.Assert("estimate-leaves-persistent-stores", samePersistent(before, e.MS))
+	if panicked || err != nil {
+		verif.ReachIf("estimate-refused", sc.Outcome != model.OutSuccess || sc.MinGas > span)
+		return
+	}
+	verif.Reach("estimated")
+	verif.ReachIf("estimate-above-gas-used", sc.Outcome == model.OutSuccess && sc.MinGas > sc.GasUse)
+	// deliver the same call with the estimate as gas limit, as eth_call on the same state
+	t.GasLimit = resp.Gas
+	res, err2 := e.EK.EthCall(e.Ctx, ethCallRequest(t, 25_000_000))
+	verif.Assert("estimate-is-executable", err2 == nil && res != nil && res.VmError == "")
+	if sc.Outcome == model.OutSuccess {
+		verif.Assert("estimate-covers-head-room", resp.Gas >= 21000+sc.MinGas)
+	}
+}
